@@ -4,7 +4,7 @@ usage: seed_intake.py <PID> <k> [...k]"""
 import os, shutil, sys, json
 pid = sys.argv[1]
 for k in sys.argv[2:]:
-    out = "/tmp/wt2_%s/_out" % pid
+    out = "/tmp/wt%s_%s/_out" % (("3" if any(int(x) >= 6 for x in sys.argv[2:]) else "2"), pid)
     dst = "/verif/seeded/%s-m%s" % (pid, k)
     os.makedirs(dst, exist_ok=True)
     shutil.copy("%s/m%s.diff" % (out, k), dst + "/patch.diff")
